@@ -10,6 +10,7 @@ import (
 	"errors"
 	"net"
 	"net/http"
+	"sync"
 	"time"
 
 	"go.miragespace.co/specter/spec/chord"
@@ -69,6 +70,71 @@ type zzKV struct {
 	writeFaults int // failures injected into mutating calls
 	lastTok     uint64
 	succErr     bool
+
+	// The calls the server makes from promise.All run on goroutines: the model is locked, and every nondeterministic
+	// choice made under a goroutine carries its own name (a fact about one key), so that a native replay does not depend
+	// on the order in which the goroutines run.
+	mu    sync.Mutex
+	facts []*zzFact
+}
+
+// zzFact is a lazily decided fact about the DHT's pre-state or about the outcome of one call on one key: the first time
+// the server's call touches (kind, key, child) the solver decides it (rt.Fork(name)); the decision is remembered.
+type zzFact struct {
+	kind    int
+	key     string
+	child   string
+	name    string
+	decided bool
+	val     bool
+	// group > 0: at most one fact of the group is true (once one is, the others are false without asking the solver)
+	group int
+}
+
+const (
+	zzFactChild       = iota + 1 // PrefixContains(key, child): the child is present in the pre-state
+	zzFactMissing                // Get(key): the seeded value is absent in the pre-state
+	zzFactLeaseHeld              // Acquire(key): the lease is held by somebody else
+	zzFactPutFails               // Put(key) fails
+	zzFactDeleteFails            // Delete(key) fails
+	zzFactRemoveFails            // PrefixRemove(key, child) fails
+)
+
+func (k *zzKV) addFact(kind int, key, child, name string) *zzFact {
+	f := &zzFact{kind: kind, key: key, child: child, name: name}
+	k.facts = append(k.facts, f)
+	return f
+}
+
+// decide returns the value of the fact (kind, key, child) if the harness declared one, deciding it on first use.
+func (k *zzKV) decide(kind int, key, child string) (val bool, declared bool) {
+	for _, f := range k.facts {
+		if f.kind != kind || f.key != key || f.child != child {
+			continue
+		}
+		if !f.decided {
+			f.decided = true
+			taken := false
+			for _, g := range k.facts {
+				if g != f && f.group > 0 && g.group == f.group && g.decided && g.val {
+					taken = true
+				}
+			}
+			f.val = !taken && rt.Fork(f.name)
+			switch {
+			case kind == zzFactChild && f.val:
+				k.seedChild(key, child)
+			case kind == zzFactMissing && f.val:
+				if i := k.find(key); i >= 0 {
+					k.simple = append(k.simple[:i:i], k.simple[i+1:]...)
+				}
+			case kind == zzFactLeaseHeld && f.val:
+				k.seedLease(key)
+			}
+		}
+		return f.val, true
+	}
+	return false, false
 }
 
 func (k *zzKV) fault(name string, read bool) bool {
@@ -160,7 +226,13 @@ func (k *zzKV) seedLease(key string) uint64 {
 // ---- chord.KV ----
 
 func (k *zzKV) Put(_ context.Context, key, value []byte) error {
+	k.mu.Lock()
+	defer k.mu.Unlock()
 	op := zzKVOp{op: zzOpPut, key: string(key), val: string(value)}
+	if fails, _ := k.decide(zzFactPutFails, string(key), ""); fails {
+		k.log = append(k.log, op)
+		return zzErrKVFault
+	}
 	if k.fault("kv-put-fails", false) {
 		k.log = append(k.log, op)
 		return zzErrKVFault
@@ -172,7 +244,10 @@ func (k *zzKV) Put(_ context.Context, key, value []byte) error {
 }
 
 func (k *zzKV) Get(_ context.Context, key []byte) ([]byte, error) {
+	k.mu.Lock()
+	defer k.mu.Unlock()
 	k.reads++
+	k.decide(zzFactMissing, string(key), "")
 	if k.fault("kv-get-fails", true) {
 		return nil, zzErrKVFault
 	}
@@ -184,7 +259,13 @@ func (k *zzKV) Get(_ context.Context, key []byte) ([]byte, error) {
 }
 
 func (k *zzKV) Delete(_ context.Context, key []byte) error {
+	k.mu.Lock()
+	defer k.mu.Unlock()
 	op := zzKVOp{op: zzOpDelete, key: string(key)}
+	if fails, _ := k.decide(zzFactDeleteFails, string(key), ""); fails {
+		k.log = append(k.log, op)
+		return zzErrKVFault
+	}
 	if k.fault("kv-delete-fails", false) {
 		k.log = append(k.log, op)
 		return zzErrKVFault
@@ -198,6 +279,9 @@ func (k *zzKV) Delete(_ context.Context, key []byte) error {
 }
 
 func (k *zzKV) PrefixAppend(_ context.Context, prefix, child []byte) error {
+	k.mu.Lock()
+	defer k.mu.Unlock()
+	k.decide(zzFactChild, string(prefix), string(child))
 	op := zzKVOp{op: zzOpPrefixAppend, key: string(prefix), val: string(child)}
 	if k.fault("kv-prefixappend-fails", false) {
 		k.log = append(k.log, op)
@@ -214,6 +298,8 @@ func (k *zzKV) PrefixAppend(_ context.Context, prefix, child []byte) error {
 }
 
 func (k *zzKV) PrefixList(_ context.Context, prefix []byte) ([][]byte, error) {
+	k.mu.Lock()
+	defer k.mu.Unlock()
 	k.reads++
 	if k.fault("kv-prefixlist-fails", true) {
 		return nil, zzErrKVFault
@@ -228,7 +314,10 @@ func (k *zzKV) PrefixList(_ context.Context, prefix []byte) ([][]byte, error) {
 }
 
 func (k *zzKV) PrefixContains(_ context.Context, prefix, child []byte) (bool, error) {
+	k.mu.Lock()
+	defer k.mu.Unlock()
 	k.reads++
+	k.decide(zzFactChild, string(prefix), string(child))
 	if k.fault("kv-prefixcontains-fails", true) {
 		return false, zzErrKVFault
 	}
@@ -236,7 +325,14 @@ func (k *zzKV) PrefixContains(_ context.Context, prefix, child []byte) (bool, er
 }
 
 func (k *zzKV) PrefixRemove(_ context.Context, prefix, child []byte) error {
+	k.mu.Lock()
+	defer k.mu.Unlock()
+	k.decide(zzFactChild, string(prefix), string(child))
 	op := zzKVOp{op: zzOpPrefixRemove, key: string(prefix), val: string(child)}
+	if fails, _ := k.decide(zzFactRemoveFails, string(prefix), string(child)); fails {
+		k.log = append(k.log, op)
+		return zzErrKVFault
+	}
 	if k.fault("kv-prefixremove-fails", false) {
 		k.log = append(k.log, op)
 		return zzErrKVFault
@@ -253,6 +349,9 @@ func (k *zzKV) PrefixRemove(_ context.Context, prefix, child []byte) error {
 }
 
 func (k *zzKV) Acquire(_ context.Context, lease []byte, _ time.Duration) (uint64, error) {
+	k.mu.Lock()
+	defer k.mu.Unlock()
+	k.decide(zzFactLeaseHeld, string(lease), "")
 	op := zzKVOp{op: zzOpAcquire, key: string(lease)}
 	if k.fault("kv-acquire-fails", false) {
 		k.log = append(k.log, op)
@@ -268,6 +367,8 @@ func (k *zzKV) Acquire(_ context.Context, lease []byte, _ time.Duration) (uint64
 }
 
 func (k *zzKV) Renew(_ context.Context, lease []byte, _ time.Duration, prev uint64) (uint64, error) {
+	k.mu.Lock()
+	defer k.mu.Unlock()
 	op := zzKVOp{op: zzOpRenew, key: string(lease)}
 	for i := range k.leases {
 		if k.leases[i].key == string(lease) && k.leases[i].token == prev {
@@ -283,6 +384,8 @@ func (k *zzKV) Renew(_ context.Context, lease []byte, _ time.Duration, prev uint
 }
 
 func (k *zzKV) Release(_ context.Context, lease []byte, token uint64) error {
+	k.mu.Lock()
+	defer k.mu.Unlock()
 	op := zzKVOp{op: zzOpRelease, key: string(lease)}
 	for i := range k.leases {
 		if k.leases[i].key == string(lease) && k.leases[i].token == token {
